@@ -97,15 +97,15 @@ TEXT["C15"] = {
              "else; that a validated decode succeeding on ANY bytes returns the stored prefix; that a shard shorter than its index or with a live index entry outside the value (incl. offset+size >= 2^64) is an "
              "error and that whenever a shard decode succeeds every chunk is the in-bounds slice its entry names; a crc-protected index detects every single-byte alteration. On the real code every byte position, "
              "truncation length, extension and adversarial index entry is applied to stored values and 8 read routes are run in a child process: never a panic, errors where the theorems make detection certain.",
-    "note": _TB + "Partial: absence of panics/aborts inside external codecs on arbitrary bytes is explored (fuzzed), not proved (one open finding: pcodec allocation abort); a checksum placed before a compressor gives no single-byte guarantee for the stored bytes (open finding for fletcher32).",
+    "note": _TB + "Partial: absence of panics/aborts inside external codecs on arbitrary bytes is explored (fuzzed), not proved (open findings: pcodec allocation abort; partial reads of the leading elements of an inner chunk whose right-size entry ends beyond the value); a checksum placed before a compressor gives no single-byte guarantee for the stored bytes (open finding for fletcher32).",
     "technique": "Lean 4 proofs of checksum error detection and shard bounds + exhaustive single-byte/truncation corruption of stored values under catch_unwind",
 }
 TEXT["C03"] = {
     "level": "Machine-checked proof for the codecs with a specified output: crc32c, fletcher32, bytes (either byte order), shuffle, transpose (inverse, element count, shape round trip, fill mapping) "
              "invert their encoding and have exactly the declared size; ANY chain of lawful bytes-to-bytes codecs inverts and honours the composed bound; the sharding layout (either index location, "
              "either index byte order, with/without index checksum) decodes to the encoded inner chunks, has length sum+index, respects the n*max+index bound and is a legal shard. The models are compared "
-             "BYTE FOR BYTE with the implementation's encodings; external compressors, packbits, pcodec and the vlen codecs are TESTED (round trip and declared size on adversarial payloads), labelled as tests.",
-    "note": _TB + "No theorem about flate2/zstd/blosc/bz2/gdeflate/pco is possible here: they are parameters whose laws are hypotheses; lossy codecs are not covered.",
+             "BYTE FOR BYTE with the implementation's encodings; packbits (every padding mode, bit range, component count) and the variable-length codecs vlen_v2 / vlen-utf8 / vlen-bytes / vlen-array / zarrs.vlen (uint32/uint64 index, either byte order, any lawful index and data chains) are modelled byte for byte with inversion, exact-size, truncation-rejection and offset-validation theorems, and their decoders are fed truncated and bit-flipped encodings on both sides; bitround is compared with a model of the prescribed rounding, fixedscaleoffset with its tolerance on exact rationals; external compressors and pcodec are TESTED (round trip and declared size on adversarial payloads), labelled as tests.",
+    "note": _TB + "No theorem about flate2/zstd/blosc/bz2/gdeflate/pco is possible here: they are parameters whose laws are hypotheses; of the lossy codecs bitround has a model and theorems (idempotence, kept bits), fixedscaleoffset and zfp are tolerance tests.",
     "technique": "Lean 4 inverse/size proofs for modelled codecs and chain composition + byte-exact differential encoding + round-trip/size tests for external codecs",
 }
 TEXT["C20"] = {
@@ -121,8 +121,8 @@ TEXT["C02"] = {
              "byte interval, decode-all fallbacks and compressors (for any codec inverting its encoding), byte and array caches, the `bytes` partial decoder (either byte order, complex component swap), transpose, "
              "squeeze — and hence through EVERY chain of these stages in any order with or without inserted caches: the chain's partial decoder answers every in-bounds list of regions with exactly the regions "
              "of the fully decoded chunk, and an absent value with fill. On the real code every sub-box of sampled chunks goes through the chunk partial decoder / chunk-subset / chunk-crossing reads for chains over "
-             "all registered codecs incl. nested sharding and is compared with the model AND with the implementation's own full decode + slice.",
-    "note": _TB + "The sharding partial decoder and blosc's item-wise partial decode are corresponded (C02 harness, C15 bounds theorems), not part of the chain theorem; external compressors enter through the inversion law.",
+             "all registered codecs incl. nested sharding and is compared with the model AND with the implementation's own full decode + slice. The SHARDING partial decoder is modelled too (Model/ShardPD.lean: index read at its declared location, inner grid, per-inner-chunk byte interval + inner chain partial decoder, scatter; the size check of repaired entries) and proved: for every legal shard served by a handle, any rank, any inner/shard shape that tiles, either index location, `shardPD` answers every in-bounds region list with the regions of the assembled shard, an absent value with fill, a wrong-size live entry with an error; the chain theorem is extended to chains whose array-to-bytes codec is `sharding_indexed` nested to ANY depth (`chainS_partial_eq_full_slice`). The model is executed on the RAW stored shard bytes of real arrays (verb c02s: every sub-box, region lists, corrupted entries).",
+    "note": _TB + "The variable-length branch of the sharding partial decoder (merge_chunks_vlen) and blosc's item-wise partial decode are corresponded, not part of the chain theorem; external compressors enter through the inversion law.",
     "technique": "Lean 4 compositional handle-invariant proof over partial decoders and chains + exhaustive sub-box differential reads",
 }
 TEXT["C14"] = {
@@ -154,9 +154,9 @@ TEXT["C13"] = {
              "store model of C08, Group::children returns exactly the child prefixes with stored metadata, with their kinds; the recursive listing and Node::open return exactly the prefixes reachable through "
              "groups; node existence is the presence of a metadata key; erasing a prefix removes exactly the nodes beneath. On the real code ~1200 structured array documents (all field orders, name forms, "
              "unknown codecs/fields, rank disagreements, missing/ill-typed fields, unicode) go through serde twice and through Array::open / metadata() / store_metadata / re-open / store again plus a panic-guarded "
-             "set of chunk operations; V2 array/group documents through the same store-reopen cycle; random create/erase histories of V2/V3 groups and arrays on memory, filesystem, object_store and opendal "
+             "set of chunk operations; V2: ArrayMetadataV2 / GroupMetadataV2 reading and writing (node_type tag, .zattrs split, filters null/[]), and the V2->V3 interpretation (data type table with byte-order prefixes, order F => reversed transpose, dimension_separator => v2 key encoding, filters then array-to-bytes then compressor, blosc/zstd/zfpy/pcodec special cases, fill value mapping incl. null/NaN/Infinity strings) are modelled (Model/MetaV2.lean) with round-trip, fixed-point, field-faithfulness, rejection and conversion theorems (Props/C13V2*.lean, 45 theorems); ~3400 generated V2 documents per run go through serde twice and through array_metadata_v2_to_v3 and are compared with the model's text; V2 array/group documents also through the same store-reopen cycle; random create/erase histories of V2/V3 groups and arrays on memory, filesystem, object_store and opendal "
              "stores are compared with the model for children/child_paths/child_groups/child_arrays/Node::open/node_exists.",
-    "note": _TB + "Partial: whether a given codec / data type / chunk grid configuration is usable is decided by the plugins, not modelled (the generator states which documents are built from valid parts); stored codec configurations are re-created by the codecs and are compared by name only; V2 documents are judged on the store/re-open fixed point, not modelled; repeated keys of typed fields (rejected by serde) are flagged by the generator; absence of panics after open is explored, not proved. Node names starting with `__` are hidden by the code only at the root (modelled as written).",
+    "note": _TB + "Partial: whether a given codec / data type / chunk grid configuration is usable is decided by the plugins, not modelled (the generator states which documents are built from valid parts); stored codec configurations are re-created by the codecs and are compared by name only; structured V2 data types and `|V<n>` names with non-ASCII digits are outside the modelled subset (driver answers `any`); repeated keys of typed fields (rejected by serde) are flagged by the generator; absence of panics after open is explored, not proved. Node names starting with `__` are hidden by the code only at the root (modelled as written).",
     "technique": "Lean 4 proofs of metadata document round trip / fixed point and of hierarchy discovery exactness + structured differential documents and random hierarchy histories on 4 store kinds",
 }
 TEXT["C12"] = {
